@@ -17,7 +17,7 @@ CHECKS = {
             True),
     "C02": ("vhist", "model_checking", "explicit-state BFS over the real cipher object to a fixpoint, model = absolute position + scalar keystream",
             "6/C02",
-            "All reachable states of the real cipher object under a menu of every seek position (7 integer types), every request length and current_pos inside three position windows are explored to a fixpoint; every transition is an implementation call compared with the position model, in release and overflow-checked builds. A second, stateless phase executes every history of 3 (4) calls over a 75-entry menu on live objects (no use of the cipher's fields), and stateright re-explores the small systems as an independent cross-check.",
+            "All reachable states of the real cipher object under a menu of every seek position (7 integer types), every request length and current_pos inside three position windows are explored to a fixpoint; every transition is an implementation call compared with the position model, and every successful request is repeated through the infallible apply_keystream on a twin object (same bytes, same state afterwards), in release and overflow-checked builds. A second, stateless phase executes every history of 3 (4) calls over a 75-entry menu on live objects (no use of the cipher's fields), and stateright re-explores the small systems as an independent cross-check.",
             "window restriction (positions near 0, 2^38 and 2^64 bytes); quick tier merges states that differ only in dead bytes of the block buffer for deduplication only (stored states keep their real bytes), thorough uses the exact key; needs the public state fields of the cipher objects (harness feature `internals`)",
             True),
     "C03": ("venum", "exploration", "complete enumeration of the 13-point backend/dispatch configuration lattice, differential against the reference models and across points",
@@ -107,7 +107,7 @@ CHECKS = {
             True),
     "C20": ("venum", "exploration", "complete enumeration of every package's feature lattice (every subset built), plus probe fingerprints across implementation-selecting feature sets",
             "6/C20",
-            "Every subset of the declared features of each of the 9 packages is built with default features off; the probe of C03, extended by Groestl-224..512, is built with 9 (thorough: all 512) implementation-selecting feature sets and, with std off, for each arm of Groestl's compile-time target-feature ladder, and must give the reference fingerprint and report the Machine type that feature set selects; a configuration of the harness that stops building is a violation; Threefish no_unroll runs C09's domain.",
+            "Every subset of the declared features of each of the 9 packages is built with default features off; the probe of C03, extended by Groestl-224..512, is built with 9 (thorough: all 512) implementation-selecting feature sets and, with std off, for every subset of the target features Groestl's compile-time ladder tests (none, ssse3, aes, both), and must give the reference fingerprint and report the Machine type that feature set selects; a configuration of the harness that stops building is a violation; Threefish no_unroll runs C09's domain.",
             "stable toolchain and x86-64 target of this sandbox; one known finding (packed_simd) is listed in KNOWN_FINDINGS.txt",
             True),
 }
